@@ -246,7 +246,7 @@ func NewACL(ctx context.Context, policies []*Policy) (*ACL, error) {
 
 			if len(pc.Permissions.RequiredParameters) > 0 {
 				if len(existingPerms.RequiredParameters) == 0 {
-					existingPerms.RequiredParameters = pc.Permissions.RequiredParameters
+					existingPerms.RequiredParameters = slices.Clone(pc.Permissions.RequiredParameters)
 				} else {
 					for _, v := range pc.Permissions.RequiredParameters {
 						if !slices.Contains(existingPerms.RequiredParameters, v) {
